@@ -216,14 +216,17 @@ def i_ADD(i_, fmap):
 
 def i_ADC(i_, fmap):
     dst, src = i_.operands
-    _c = fmap[cf]
+    # carry-in, extended to the operands' size:
+    _c = fmap(cf).zeroextend(dst.size)
     i_ADD(i_, fmap)
+    _c1 = fmap(cf)
+    _h1 = fmap(hf)
     _a = fmap(dst)
-    _x = _a + tst(_c, cst(1, _a.size), cst(0, _a.size))
+    _x = _a + _c
     fmap[zf] = tst(_x == 0, bit1, bit0)
-    fmap[sf] = tst(_x < 0, bit1, bit0)
-    fmap[cf] = tst(_x < _a, bit1, bit0)
-    fmap[hf] = __halfcarry__(_a, _c)
+    fmap[sf] = _x[_x.size - 1 : _x.size]
+    fmap[cf] = _c1 | tst(_x < _a, bit1, bit0)
+    fmap[hf] = _h1 | __halfcarry__(_a, _c)
     fmap[dst] = _x
 
 
@@ -243,14 +246,19 @@ def i_SUB(i_, fmap):
 
 
 def i_SBC(i_, fmap):
-    _c = fmap[cf]
-    i_add(i_, fmap)
-    _a = fmap(a)
-    _x = _a - tst(_c, cst(1, _a.size), cst(0, _a.size))
+    fmap[pc] = fmap[pc] + i_.length
+    dst, src = i_.operands
+    _a = fmap(dst)
+    _b = fmap(src)
+    # borrow-in, extended to the operands' size:
+    _c = fmap(cf).zeroextend(dst.size)
+    _y = _a - _b
+    _x = _y - _c
     fmap[zf] = tst(_x == 0, bit1, bit0)
-    fmap[sf] = tst(_x < 0, bit1, bit0)
-    fmap[cf] = tst(_x < _a, bit1, bit0)
-    fmap[hf] = __halfcarry__(_a, _c)
+    fmap[sf] = _x[_x.size - 1 : _x.size]
+    fmap[cf] = tst(_y > _a, bit1, bit0) | tst(_x > _y, bit1, bit0)
+    fmap[hf] = __halfcarry__(_a, -_b) | __halfcarry__(_y, -_c)
+    fmap[nf] = bit1
     fmap[dst] = _x
 
 
